@@ -1077,6 +1077,8 @@ func runLOOP(c *Ctx, r *Result, rule string, fns []*ssa.Function, reach *Reach) 
 				class, o.Verdict, o.Reason = "A", Discharged, why
 			} else if why, ok := l.classConsumer(c); ok {
 				class, o.Verdict, o.Reason = "B", Discharged, why
+			} else if why, ok := l.classEuclid(); ok {
+				class, o.Verdict, o.Reason = "E", Discharged, why
 			} else if why, ok := l.classParser(c, cfg); ok {
 				class, o.Verdict, o.Reason = "P", Discharged, why
 			} else if why, ok := l.classLexer(c, cfg); ok {
@@ -1660,4 +1662,49 @@ func autoValueDescent(c *Ctx, comp []*ssa.Function) string {
 		}
 	}
 	return fmt.Sprintf("each member has one reflect.Value parameter; of the %d calls between members %d pass a strict sub-part (Index/Field/MapIndex/Elem) of it and the rest pass it on unchanged without forming a cycle", edges, subs)
+}
+
+// classEuclid (E): `for b != 0 { a, b = b, a % b }`. The loop is left when the integer phi b is
+// zero, the test lies on every cycle, and on every back edge b becomes x % b for some x: the
+// remainder is smaller in magnitude than the divisor, so |b| strictly decreases.
+func (l *loopInfo) classEuclid() (string, bool) {
+	for _, iff := range l.exits() {
+		bo, ok := iff.Cond.(*ssa.BinOp)
+		if !ok || (bo.Op != token.NEQ && bo.Op != token.EQL) {
+			continue
+		}
+		var phi *ssa.Phi
+		if k, isK := constInt(bo.Y); isK && k == 0 {
+			phi, _ = bo.X.(*ssa.Phi)
+		} else if k, isK := constInt(bo.X); isK && k == 0 {
+			phi, _ = bo.Y.(*ssa.Phi)
+		}
+		if phi == nil || phi.Block() != l.header || !isIntType(phi.Type()) {
+			continue
+		}
+		// the loop continues on b != 0
+		stayOnTrue := l.body[iff.Block().Succs[0]]
+		if (bo.Op == token.NEQ) != stayOnTrue {
+			continue
+		}
+		if !l.everyCycleHits(func(b *ssa.BasicBlock) bool { return b == iff.Block() }) {
+			continue
+		}
+		ok = true
+		backs := 0
+		for i, e := range phi.Edges {
+			if !l.body[l.header.Preds[i]] {
+				continue
+			}
+			backs++
+			rem, isRem := e.(*ssa.BinOp)
+			if !isRem || rem.Op != token.REM || rem.Y != ssa.Value(phi) {
+				ok = false
+			}
+		}
+		if ok && backs > 0 {
+			return "Euclid-style loop: it is left when " + phiName(phi) + " is 0, and on every cycle " + phiName(phi) + " becomes a remainder modulo itself, whose magnitude is strictly smaller", true
+		}
+	}
+	return "", false
 }
